@@ -46,6 +46,8 @@ DEFINES = ["v s", "v n; w string:W", "global g s", "v lst", "v missing | string:
 
 # templates that once separated a seeded defect from the real thing: they always run first
 FIXED = [
+    # the `text` keyword of content / replace (the default, said explicitly)
+    [("elem", "b", [], {"content": "text s"}, [("text", "x")]), ("elem", "i", [], {"replace": "text n"}, []), ("elem", "u", [], {"content": "text missing | string:alt"}, [])],
     [("elem", "p", [], {"content": "n/0 | string:alt"}, [("text", "d")]), ("elem", "p", [], {"condition": "not:exists:n/10", "content": "string:[${n/3}]"}, []),
      ("elem", "i", [], {"replace": "none/2 | default"}, [("text", "kept")])],
     # an inner loop re-using the outer loop's variable name: afterwards `repeat/x` and `x` are the outer loop's again
@@ -197,7 +199,7 @@ def parse_content(arg):
     if len(bits) > 1:
         if bits[0] == "structure":
             structure, ex = True, " ".join(bits[1:])
-        elif bits[1] == "text":
+        elif bits[0] == "text":
             ex = " ".join(bits[1:])
     return structure, ex
 
